@@ -163,7 +163,7 @@ FMTS = [{}, {}, {"fg": 31}, {"bg": 44}, {"bold": True}, {"fg": 32, "bg": 45, "un
 
 @st.composite
 def make_row(draw, length):
-    text = draw(st.text(alphabet="abcxyz .#", min_size=length, max_size=length))
+    text = draw(st.text(alphabet="abcxyz .#\xa0\u2003é", min_size=length, max_size=length))  # incl. non-ASCII blanks (NBSP, em space)
     kind = draw(st.integers(0, 3))
     if kind == 0:
         return {"str": text}
